@@ -10,6 +10,7 @@ pub mod refmodel;
 pub mod fam_n;
 pub mod fam_a;
 pub mod fam_u;
+pub mod fam_d;
 
 #[cfg(not(kani))]
 pub mod registry;
